@@ -152,3 +152,10 @@ Qed.
 
 Lemma le_bytes_bytes n x : Forall (fun b => 0 <= b < 256) (le_bytes n x).
 Proof. revert x; induction n; intros; cbn; constructor; auto. apply Z.mod_pos_bound; lia. Qed.
+
+Lemma chk_ok t s x : in_ty t x -> chk t s x = Ok x.
+Proof. intros H. unfold chk. apply in_tyb_spec in H. now rewrite H. Qed.
+
+Lemma in_ty_usz x : 0 <= x < 2 ^ 64 -> in_ty USZ x.
+Proof. unfold in_ty, tmin, tmax; cbn [signed bits]. lia. Qed.
+
